@@ -60,6 +60,29 @@ Proof.
   vm_compute. reflexivity.
 Qed.
 
+(* the directed whole-app witness of corpus/C13.json (delegate 1000 OLT, undelegate 900 OLT, two
+   validators of power 1000): with the ACTIVE table (100 OLT left in a pool of 100 OLT) everything
+   credited is within the pulled amount ... *)
+Example C13_split_directed_witness :
+  exists out,
+    split K [mkVote 1 1000 true true; mkVote 2 1000 true true] (100 * UNIT) [(3, 100 * UNIT)] 1
+          38356164383561643835 = Some out /\
+    zsum (map snd (so_vals out)) + zsum (map snd (so_delegs out)) = 38338769297673407260 /\
+    so_delegs out = [(3, 1369863013698630137)].
+Proof. eexists. vm_compute. auto. Qed.
+
+(* ... and the hypothesis "the table sums to at most the pool" of C13_split_bounded is necessary:
+   sharing by the PENDING amount (900 OLT, no longer in the pool) — what a delegation store that
+   iterates the wrong list does (seeded/C13_3) — credits 9 times the delegators' share, more than
+   was pulled.  The check's monitor compares exactly this sum, taken from the implementation's
+   records (all delegRwz_balance deltas), with the pulled amount. *)
+Theorem C13_split_table_le_pool_needed : exists out,
+  split K [mkVote 1 1000 true true; mkVote 2 1000 true true] (100 * UNIT) [(3, 900 * UNIT)] 1
+        38356164383561643835 = Some out /\
+  38356164383561643835 < zsum (map snd (so_vals out)) + zsum (map snd (so_delegs out)) /\
+  so_delegs out = [(3, 12328767123287671233)].
+Proof. eexists. vm_compute. auto. Qed.
+
 (* (b) the calculator (behaviour of /repo since 0cc9fdb, 6bfa5cf, 47bb3a6).
    [cache_inv]: a warm cache holds the burnout rate or at most what its year had left.  From such
    a cache (a cold cache is one) — or at the first block of a cycle from ANY cache — every
